@@ -843,7 +843,16 @@ static void crash_points (int zeros, int failmode)
 static int c16_cmd (char *line)
 {
   static char *copy = 0;
+  static int started = 0;
   char *tok[16];
+  if (!started)
+    {
+      /* every case runs in its own child: start it without a save file / temporary left by an earlier case, so that
+         a case (and a shrunk replay) means the same whatever ran before it */
+      started = 1;
+      unlink (SAVE_FILE);
+      unlink (SAVE_TMP);
+    }
   free (copy);
   copy = strdup (line);
   int n = vh_split (copy, tok, 16);
